@@ -320,6 +320,43 @@ fn cmd_run3(args: &[String]) {
     }
 }
 
+/// stage-trace <jobs.ndjson> <out.ndjson>: for every job the sequence of stage events recorded by the hook inside the real
+/// compile_context, as one trace: a "begin" record (job, owners, outs), one record per stage, an "end" record (ok | err).
+fn cmd_stage_trace(args: &[String]) {
+    let jobs = read_jobs(&args[0]);
+    let mut out = std::io::BufWriter::new(std::fs::File::create(&args[1]).unwrap());
+    cc_conform::quiet_panics();
+    for job in jobs {
+        let c = match prog::build_context(&job["prog"]) {
+            Ok(c) => c,
+            Err(_) => continue,
+        };
+        let owners: Vec<_> = job["owners"].as_array().unwrap().iter().map(compile::io_status).collect();
+        let outs: Vec<_> = job["outs"].as_array().unwrap().iter().map(compile::io_status).collect();
+        let _ = ciphercore_base::verif_hooks::drain_stages();
+        let r = cc_conform::catch(std::panic::AssertUnwindSafe(|| {
+            ciphercore_base::mpc::mpc_compiler::compile_context(c.clone(), owners.clone(), outs.clone(), compile::inline_config(job["mode"].as_str().unwrap()), || {
+                ciphercore_base::evaluators::simple_evaluator::SimpleEvaluator::new(None)
+            })
+        }));
+        let stages = ciphercore_base::verif_hooks::drain_stages();
+        writeln!(out, "{}", json!({"ev": "begin", "job": job["id"], "n_in": owners.len(), "shared_out": outs.is_empty(),
+            "graphs": 0, "main_nodes": 0, "custom": 0, "calls": 0, "prf": [], "rnd": 0, "inputs": [], "finalized": false, "out_ty": {"k":"t","el":[]}})).unwrap();
+        for (name, ctx) in stages.iter() {
+            if let Ok(s) = compile::stage_summary(name, ctx) {
+                writeln!(out, "{}", s).unwrap();
+            }
+        }
+        let res = match r {
+            Ok(Ok(_)) => "ok",
+            Ok(Err(_)) => "err",
+            Err(_) => "panic",
+        };
+        writeln!(out, "{}", json!({"ev": "end", "res": res, "job": job["id"],
+            "graphs": 0, "main_nodes": 0, "custom": 0, "calls": 0, "prf": [], "rnd": 0, "inputs": [], "finalized": false, "out_ty": {"k":"t","el":[]}})).unwrap();
+    }
+}
+
 fn main() {
     let args: Vec<String> = std::env::args().skip(1).collect();
     if args.is_empty() {
@@ -331,6 +368,7 @@ fn main() {
         "compile-progs" => cmd_compile_progs(&args[1..]),
         "optimize-cases" => cmd_optimize_cases(&args[1..]),
         "run3" => cmd_run3(&args[1..]),
+        "stage-trace" => cmd_stage_trace(&args[1..]),
         c => {
             eprintln!("unknown command {c}");
             std::process::exit(2);
